@@ -97,7 +97,7 @@ def _subset(draw, universe, min_size=0, max_size=None):
 
 
 @st.composite
-def _cp_case(draw, algo, wclass, budgets=(0, 1, 2, 3), fixed="proper", reexpress=False):
+def _cp_case(draw, algo, wclass, budgets=(0, 1, 2, 3), fixed="proper", reexpress=False, orthogonalise=False):
     """wclass: 'unit' | 'weighted';  fixed: 'none' | 'proper' (subset without last mode, may be empty)
        | 'nonempty' | 'all' | 'with_last' (contains the last mode; may be all)"""
     spec = CP_ALGOS[algo]
@@ -116,6 +116,9 @@ def _cp_case(draw, algo, wclass, budgets=(0, 1, 2, 3), fixed="proper", reexpress
     else:
         wk = draw(st.sampled_from(["pos", "neg", "mixed"]))
     w = draw(_weights(rank, wk))
+    if reexpress and w is not None and draw(st.booleans()):
+        k0 = next(k for k in w["d"] if k != 1.0) if wk != "neg" else w["d"][0]
+        w = {"s": [rank], "d": [k0] * rank}          # uniform non-unit weights
     c = {"algo": algo, "X": X, "rank": rank, "weights": w, "factors": facs,
          "form": draw(st.sampled_from(["tuple", "list", "wrapper"])),
          "n_iter": draw(st.sampled_from(list(budgets))),
@@ -144,6 +147,8 @@ def _cp_case(draw, algo, wclass, budgets=(0, 1, 2, 3), fixed="proper", reexpress
         if not reexpress:
             opts["l2_reg"] = draw(st.sampled_from([0, 0, 0.25]))
             opts["return_errors"] = draw(st.booleans())
+        if orthogonalise:
+            opts["orthogonalise"] = draw(st.sampled_from([True, 1, 2]))
     elif algo == "nn_hals":
         opts["nn_modes"] = draw(st.sampled_from(["all", "all", "subset", "none"]))
         if opts["nn_modes"] == "subset":
@@ -179,6 +184,8 @@ def _run_cp(case, w, F, X, n_iter=None, fixed=None):
             kw["l2_reg"] = opts["l2_reg"]
         if opts.get("return_errors"):
             kw["return_errors"] = True
+        if opts.get("orthogonalise"):
+            kw["orthogonalise"] = opts["orthogonalise"]
     elif algo == "nn_hals":
         nm = opts.get("nn_modes", "all")
         kw["nn_modes"] = None if nm == "none" else nm
@@ -243,12 +250,18 @@ def o_cp(case):
         same_bits(rf[nd - 1], F[nd - 1], "b/fixed-factor")
     return {"nontrivial": (not unit) or bool(fx),
             "labels": [f"order={nd}", f"w={_wsign(w)}", f"n={n}", f"nfixed={len(fx)}", f"form={case['form']}",
-                       f"dtype={case['dtype']}"]}
+                       f"dtype={case['dtype']}"] + ([f"orthogonalise={case['opts']['orthogonalise']}"]
+                                                          if case["opts"].get("orthogonalise") else [])}
 
 
-def _perturb(arrs):
+def _perturb(arrs, nonneg=False):
+    """entrywise additive perturbation of size 1e-12 * max(1, max|a|) (kept non-negative for NN algorithms)"""
     rs = np.random.RandomState(12345)
-    return [a * (1.0 + 1e-12 * rs.choice([-1.0, 1.0], size=a.shape)) for a in arrs]
+    out = []
+    for a in arrs:
+        u = rs.choice([0.5, 1.0] if nonneg else [-1.0, 1.0], size=a.shape)
+        out.append(a + 1e-12 * max(1.0, float(np.max(np.abs(a)))) * u)
+    return out
 
 
 def o_cp_reexpress(case):
@@ -267,12 +280,24 @@ def o_cp_reexpress(case):
     scale = max(1.0, float(np.max(np.abs(X))), float(np.max(np.abs(d2))))
     # conditioning rule: the same reference start perturbed by 1e-12 (relative, entrywise) must move the
     # iterate by <= 1e-9*scale, otherwise the sweep map amplifies rounding too much to assert 1e-8
-    rw3, rf3 = _run_cp(c2, None, _perturb(F2), X, fixed=[])
+    nonneg = CP_ALGOS[case["algo"]]["nonneg"]
+    rw3, rf3 = _run_cp(c2, None, _perturb(F2, nonneg), X, fixed=[])
     d3 = ref.cp_dense(None if rw3 is None else as_array(rw3, "result/weights"), rf3)
     if not np.all(np.isfinite(d3)) or float(np.max(np.abs(d3 - d2))) > 1e-9 * scale:
         discard("ill-conditioned sweep (1e-12 perturbation moves the iterate by > 1e-9)")
-    close(d1, d2, "c/reexpress", rel=1e-8, scale=scale)
-    return {"nontrivial": True, "labels": [f"order={X.ndim}", f"w={_wsign(w)}", f"n={case['n_iter']}", f"absorb={m}"]}
+    # same rule on the weighted expression (rank-deficient normal equations that happen not to raise)
+    rw4, rf4 = _run_cp(case, w, _perturb(F, nonneg), X, fixed=[])
+    d4 = ref.cp_dense(None if rw4 is None else as_array(rw4, "result/weights"), rf4)
+    if np.all(np.isfinite(d1)) and np.all(np.isfinite(d4)) and float(np.max(np.abs(d4 - d1))) > 1e-9 * scale:
+        discard("ill-conditioned sweep (1e-12 perturbation moves the iterate by > 1e-9)")
+    # HALS' inner early stop (sum_k ||dV_k||^2 < 1e-8 * first) weighs the components by their scale, so with
+    # *non-uniform* weights the two expressions may legitimately stop one inner iteration apart (difference
+    # ~ sqrt(1e-8) of a step); only gross disagreement is asserted there.  Uniform weights leave the ratio invariant.
+    uniform = bool(np.all(w == w[0]))
+    loose = case["algo"] == "nn_hals" and not uniform
+    close(d1, d2, "c/reexpress", rel=1e-2 if loose else 1e-8, scale=scale)
+    return {"nontrivial": True, "labels": [f"order={X.ndim}", f"w={_wsign(w)}", f"n={case['n_iter']}", f"absorb={m}",
+                                           f"tol={'loose' if loose else 'tight'}"]}
 
 
 # ----------------------------------------------------------------------------
@@ -473,6 +498,12 @@ def o_p2_reexpress(case):
     fac = [A, B, C]
     fac2 = [f.copy() for f in fac]
     fac2[m] = fac2[m] * w.reshape(1, -1)
+    # explicit domain rule: the projection step P_i = polar(X_i C diag(w a_i) B^T) is unique only if that
+    # R x J matrix has full rank R (needs non-zero a_ir, non-singular B, full-rank C and slices)
+    for i, Xi in enumerate(X):
+        sv = np.linalg.svd(B @ np.diag(w * A[i]) @ C.T @ Xi.T, compute_uv=False)
+        if sv[min(len(sv), case["R"]) - 1] <= 1e-6 * max(sv[0], 1e-300) or len(sv) < case["R"]:
+            discard("initial projection step ill-posed (rank-deficient B diag(a_i) C^T X_i^T)")
     got = _p2_run(case, _p2_init(case, w, A, B, C, P), X, n)
     ref_run = _p2_run(dict(case, form="tuple"), _p2_init(dict(case, form="tuple"), None, fac2[0], fac2[1], fac2[2], P), X, n)
     if not all(np.all(np.isfinite(s)) for s in ref_run):
@@ -486,6 +517,11 @@ def o_p2_reexpress(case):
     if not all(np.all(np.isfinite(s)) for s in pert) or \
             max(float(np.max(np.abs(a - b))) for a, b in zip(pert, ref_run)) > 1e-9 * scale:
         discard("ill-conditioned sweep (1e-12 perturbation moves the iterate by > 1e-9)")
+    pf = _perturb(fac)
+    pert = _p2_run(case, _p2_init(case, w, pf[0], pf[1], pf[2], P), X, n)
+    if all(np.all(np.isfinite(s)) for s in pert + got) and \
+            max(float(np.max(np.abs(a - b))) for a, b in zip(pert, got)) > 1e-9 * scale:
+        discard("ill-conditioned sweep (1e-12 perturbation moves the iterate by > 1e-9)")
     for g, s in zip(got, ref_run):
         close(g, s, "c/reexpress", rel=1e-8, scale=scale)
     return {"nontrivial": True, "labels": [f"w={_wsign(w)}", f"n={n}", f"absorb={m}", f"ragged={case['ragged']}"]}
@@ -495,35 +531,38 @@ def o_p2_reexpress(case):
 def subchecks(tier):
     subs = []
     for algo, spec in CP_ALGOS.items():
-        subs.append(SubCheck(f"cp/{algo}/unit", _cp_case(algo, "unit"), o_cp, quick=150, thorough=1500, discard_exc=LINALG))
+        subs.append(SubCheck(f"cp/{algo}/unit", _cp_case(algo, "unit"), o_cp, quick=400, thorough=2500, discard_exc=LINALG))
         # --- input class of D11 (non-unit weights) kept apart ---
-        subs.append(SubCheck(f"cp/{algo}/weighted", _cp_case(algo, "weighted"), o_cp, quick=150, thorough=1500,
+        subs.append(SubCheck(f"cp/{algo}/weighted", _cp_case(algo, "weighted"), o_cp, quick=400, thorough=2500,
                              discard_exc=LINALG))
         if spec["reexpress"]:
             subs.append(SubCheck(f"cp/{algo}/reexpress", _cp_case(algo, "weighted", budgets=(1, 2, 3), fixed="none", reexpress=True),
-                                 o_cp_reexpress, quick=120, thorough=1500, discard_exc=LINALG))
-    subs.append(SubCheck("cp/parafac/all_fixed_unit", _cp_case("parafac", "unit", fixed="all"), o_cp, quick=100, thorough=800,
+                                 o_cp_reexpress, quick=250, thorough=1500, discard_exc=LINALG))
+    subs.append(SubCheck("cp/parafac/all_fixed_unit", _cp_case("parafac", "unit", fixed="all"), o_cp, quick=250, thorough=1200,
                          discard_exc=LINALG))
-    subs.append(SubCheck("cp/parafac/all_fixed_weighted", _cp_case("parafac", "weighted", fixed="all"), o_cp, quick=100,
-                         thorough=800, discard_exc=LINALG))
-    subs.append(SubCheck("cp/nn_hals/fixed_last_tol0_unit", _cp_case("nn_hals", "unit", fixed="with_last"), o_cp, quick=100,
-                         thorough=800, discard_exc=LINALG))
-    subs.append(SubCheck("tucker/budget0", _tucker_case("tucker", fixed="proper", budgets=(0,)), o_tucker, quick=150, thorough=1500,
+    subs.append(SubCheck("cp/parafac/all_fixed_weighted", _cp_case("parafac", "weighted", fixed="all"), o_cp, quick=250,
+                         thorough=1200, discard_exc=LINALG))
+    subs.append(SubCheck("cp/parafac/fixed_orthogonalise", _cp_case("parafac", "unit", budgets=(1, 2, 3), fixed="nonempty",
+                                                               orthogonalise=True), o_cp, quick=250, thorough=1200,
                          discard_exc=LINALG))
-    subs.append(SubCheck("tucker/fixed", _tucker_case("tucker", fixed="nonempty"), o_tucker, quick=150, thorough=1500,
+    subs.append(SubCheck("cp/nn_hals/fixed_last_tol0_unit", _cp_case("nn_hals", "unit", fixed="with_last"), o_cp, quick=250,
+                         thorough=1200, discard_exc=LINALG))
+    subs.append(SubCheck("tucker/budget0", _tucker_case("tucker", fixed="proper", budgets=(0,)), o_tucker, quick=400, thorough=2500,
                          discard_exc=LINALG))
-    subs.append(SubCheck("tucker/fixed_nonorth", _tucker_case("tucker", fixed="nonempty", orth=False), o_tucker, quick=100,
-                         thorough=1000, discard_exc=LINALG))
-    subs.append(SubCheck("tucker/all_fixed", _tucker_case("tucker", fixed="all"), o_tucker, quick=80, thorough=500,
+    subs.append(SubCheck("tucker/fixed", _tucker_case("tucker", fixed="nonempty"), o_tucker, quick=400, thorough=2500,
                          discard_exc=LINALG))
-    subs.append(SubCheck("ntd_hals/budget0", _tucker_case("ntd_hals", fixed="proper", budgets=(0,)), o_tucker, quick=100,
-                         thorough=1000, discard_exc=LINALG))
-    subs.append(SubCheck("ntd_hals/fixed", _tucker_case("ntd_hals", fixed="nonempty"), o_tucker, quick=100, thorough=1000,
+    subs.append(SubCheck("tucker/fixed_nonorth", _tucker_case("tucker", fixed="nonempty", orth=False), o_tucker, quick=250,
+                         thorough=1500, discard_exc=LINALG))
+    subs.append(SubCheck("tucker/all_fixed", _tucker_case("tucker", fixed="all"), o_tucker, quick=200, thorough=1000,
                          discard_exc=LINALG))
-    subs.append(SubCheck("ntd_mu/budget0", _tucker_case("ntd_mu", fixed="none", budgets=(0,)), o_tucker, quick=80, thorough=500,
+    subs.append(SubCheck("ntd_hals/budget0", _tucker_case("ntd_hals", fixed="proper", budgets=(0,)), o_tucker, quick=250,
+                         thorough=1500, discard_exc=LINALG))
+    subs.append(SubCheck("ntd_hals/fixed", _tucker_case("ntd_hals", fixed="nonempty"), o_tucker, quick=250, thorough=1500,
                          discard_exc=LINALG))
-    subs.append(SubCheck("parafac2/budget0_p2", _p2_case("p2"), o_p2_budget0, quick=120, thorough=1200, discard_exc=LINALG))
-    subs.append(SubCheck("parafac2/budget0_cp", _p2_case("cp"), o_p2_budget0, quick=120, thorough=1200, discard_exc=LINALG))
-    subs.append(SubCheck("parafac2/reexpress", _p2_case("p2", budgets=(1, 2, 3), wclass="weighted"), o_p2_reexpress, quick=100,
+    subs.append(SubCheck("ntd_mu/budget0", _tucker_case("ntd_mu", fixed="none", budgets=(0,)), o_tucker, quick=200, thorough=1000,
+                         discard_exc=LINALG))
+    subs.append(SubCheck("parafac2/budget0_p2", _p2_case("p2"), o_p2_budget0, quick=300, thorough=2000, discard_exc=LINALG))
+    subs.append(SubCheck("parafac2/budget0_cp", _p2_case("cp"), o_p2_budget0, quick=300, thorough=2000, discard_exc=LINALG))
+    subs.append(SubCheck("parafac2/reexpress", _p2_case("p2", budgets=(1, 2, 3), wclass="weighted"), o_p2_reexpress, quick=200,
                          thorough=1000, discard_exc=LINALG))
     return subs
